@@ -102,6 +102,30 @@ def make_scenarios(rng, tier):
                 sc["steps"].append({"op": "snapshot", "probe": names, "_active": [], "_done": list(held)})
             scs.append(sc)
             sid += 1
+    # requests that PANIC inside the pooled call (a nil stop tag: the engine dereferences it after the first rule, outside every
+    # recover; the panic reaches the caller): the instance goes back WITHOUT the request's data, like after any other ending
+    for (mn, mx) in [(1, 2), (2, 3)]:
+        sc = {"id": sid, "min": mn, "max": mx, "model": 1, "rules": rules_v(1), "steps": []}
+        names = ["pa", "pb", "pc"]
+        rid = sid * 1000
+        gone = []
+        for meth in ("ExecuteMixModelWithStopTagDirect", "ExecuteWithStopTagDirect", "ExecuteSelectedRulesWithControlAndStopTag", "ExecuteSelectedRulesWithControlAndStopTagAsGivenSortedName") * 2:
+            rid += 1
+            gone.append(rid)
+            sc["steps"].append(req_step(rid, meth, names, hold_at="", nil_tag=True))
+            sc["steps"].append({"op": "wait", "id": rid})
+            sc["steps"].append({"op": "snapshot", "probe": names, "_active": [], "_done": list(gone)})
+        held = []
+        for _ in range(mx):
+            rid += 1
+            held.append(rid)
+            sc["steps"].append(req_step(rid, "Execute", names, hold_at="*"))
+        sc["steps"].append({"op": "snapshot", "probe": names, "_active": list(held), "_done": list(gone)})
+        for q in held:
+            sc["steps"].append({"op": "release", "id": q})
+        sc["steps"].append({"op": "snapshot", "probe": names, "_active": [], "_done": gone + held})
+        scs.append(sc)
+        sid += 1
     # ExecuteRulesWithSpecifiedEM takes two named objects; a call may carry only the SECOND ("response") one: it is injected, and
     # must be taken out again when the call returns, like any other request data
     for (mn, mx) in [(1, 2), (2, 3)]:
@@ -134,7 +158,7 @@ def make_scenarios(rng, tier):
 RULE = ("scenarios as C17 (overlap rounds and random walks over pool states) on pools (1,2),(2,3),(2,5) plus every one of the 24 wrapper methods paired on a (1,2) pool, once with sound rules and twice with a failing and a panicking rule next to the held one (continue-on-error with the held rule alone in its stage; stop-on-error with the failing rule in the held rule's stage): max requests held at a gate inside their first rule while snapshots read every instance's data context by reflection; "
         "every request carries a unique id in its own injected object and under a unique key (in eight scenarios also under the name of an api the pool was built with; in two, through the response slot alone of the two-object wrapper); rules echo the id into the returned values and into the request's object; "
         "checked inside Coq: the instances holding request keys are exactly the executing requests, one each; nothing of a returned request is left in any instance; returned maps contain only the caller's id and are unchanged when read again at the end; "
-        "plus four scenarios on pools that were cleared and brought back into service by a full / incremental update; distinct non-trivial = snapshots taken while at least two requests were simultaneously inside a rule")
+        "plus two scenarios in which eight requests panic inside the pooled call (nil stop tag) with a snapshot after each; plus four scenarios on pools that were cleared and brought back into service by a full / incremental update; distinct non-trivial = snapshots taken while at least two requests were simultaneously inside a rule")
 
 
 def main(run):
